@@ -24,7 +24,7 @@ from typing import Any, Optional
 
 import z3
 
-from .pyvals import (NONE, Exc, IntSeq, NoneVal, PAbs, PyCache, PyCallable, PyConst, PyGen, PyKey, PyList, PyMap, PyObj,
+from .pyvals import (NONE, Exc, IntSeq, NoneVal, PAbs, PyCache, PyCallable, PyConst, PyGen, PyKey, PyList, PyLit, PyMap, PyObj,
                      PyOpt, PyStrSet, PyTuple, StrSeq, Tok, TokSeq, Val, ValSeq, clone, fresh, is_bool, is_int, is_seq, is_str,
                      is_tok, is_val, is_z3, tok_fields, truthy)
 
@@ -87,6 +87,9 @@ join_lines = z3.Function("join_lines", StrSeq, S)
 dedent = z3.Function("textwrap_dedent", S, S)
 
 
+LIT_TRUTHY = z3.Function("literal_truthy", Val, z3.BoolSort())
+
+
 def Tr(v):
     """Python truthiness of a value as a z3 Bool (or Python bool)"""
     if v is NONE:
@@ -113,6 +116,8 @@ def Tr(v):
         return v.nonempty if hasattr(v, "nonempty") else z3.BoolVal(True)
     if isinstance(v, PyObj) and v.cls == "EPStack":
         return v.fields["n"] > 0
+    if isinstance(v, PyLit):
+        return LIT_TRUTHY(v.val)              # non-empty str / bytes value (uninterpreted)
     if isinstance(v, (PyObj, PyCallable, PyConst, PyGen)):
         return z3.BoolVal(True)
     raise Unsupported(f"truthiness of {type(v).__name__}")
@@ -132,6 +137,8 @@ def lift(v):
 def eq(a, b):
     """Python == as a z3 Bool"""
     a, b = lift(a), lift(b)
+    if isinstance(a, PyLit) and isinstance(b, PyLit):
+        return z3.And(a.isbytes == b.isbytes, a.val == b.val)
     if isinstance(a, PyOpt) or isinstance(b, PyOpt):
         o, x = (a, b) if isinstance(a, PyOpt) else (b, a)
         if x is NONE:
